@@ -408,4 +408,258 @@ theorem shuffled_project : ∀ (s : Schema) (v w : JVal), Shuffled v w → proje
         | none => rfl
         | some c => exact ih c (List.mem_of_find?_eq_some hf) _ _ (.obj ho hp hnd)
 
+/-! ### Unknown fields -/
+
+theorem filter_known_spelled {fields : List Field} {f : Field} (hf : f ∈ fields) (o : Obj) :
+    (o.filter (fun e => known fields e.1)).filter (fun e => spells f.name f.aliases e.1) =
+      o.filter (fun e => spells f.name f.aliases e.1) := by
+  rw [List.filter_filter]
+  apply List.filter_congr
+  intro e _
+  cases hsp : spells f.name f.aliases e.1 with
+  | false => rfl
+  | true => simp [known_of_mem hf (show f.spelledBy e.1 = true from hsp)]
+
+/-- What relates two values read under `s` for the purposes of a field: same result, same
+`null`-ness. -/
+def SameRead (s : Schema) (v w : JVal) : Prop := project s v = project s w ∧ isNull v = isNull w
+
+mutual
+theorem ext_sameRead : ∀ {s : Schema} {v w : JVal}, Ext s v w → SameRead s v w
+  | _, _, _, .refl _ _ => ⟨rfl, rfl⟩
+  | _, _, _, .arr (e := e) hl => by
+    refine ⟨?_, rfl⟩
+    rw [project, project, extL_project hl]
+  | _, _, _, .map (ok := ok) hm => by
+    refine ⟨?_, rfl⟩
+    rw [project_map, project_map, extM_project hm ok]
+  | _, _, _, .nullOr (s := s) (v := v) (w := w) h => by
+    have ⟨h1, h2⟩ := ext_sameRead h
+    refine ⟨?_, h2⟩
+    by_cases hv : v = .null
+    · subst hv
+      have : w = .null := by cases w <;> simp [isNull] at h2 ⊢
+      subst this; rfl
+    · have hw : w ≠ .null := by
+        intro e; subst e
+        cases v <;> simp [isNull] at h2 hv
+      rw [project_nullOr _ _ hv, project_nullOr _ _ hw, h1]
+  | _, _, _, .obj (fields := fields) (keep := keep) (a := a) (b := b) ho hk => by
+    refine ⟨?_, rfl⟩
+    rw [project_obj', project_obj']
+    have houts : outs fields a = outs fields b := by
+      apply List.map_congr_left
+      intro f hf
+      have hrel := extO_rel ho f hf
+      rw [filter_known_spelled hf, filter_known_spelled hf] at hrel
+      have hl : LookRel (SameRead f.schema) (f.look a) (f.look b) := pick_rel hrel (List.Perm.refl _)
+      rw [outOf_lookRel (fun v w hvw => hvw) hl]
+    rw [houts]
+    cases keep with
+    | false => rfl
+    | true => simp only [if_true]; rw [hk rfl]
+  | _, _, _, .tagged (tag := tag) (cases := cases) (a := a) (b := b) ht hc => by
+    refine ⟨?_, rfl⟩
+    rw [project_tagged, project_tagged]
+    have htag : tagOf tag a = tagOf tag b := by rw [tagOf_eq, tagOf_eq, ht]
+    rw [← htag]
+    cases hta : tagOf tag a with
+    | none => rfl
+    | some t =>
+      simp only
+      cases hf : cases.find? (fun c => c.label == t) with
+      | none => rfl
+      | some c =>
+        have hlab : c.label = t := by simpa using List.find?_some hf
+        exact (ext_sameRead (hc c (List.mem_of_find?_eq_some hf) (by rw [hta, hlab]))).1
+theorem extL_project : ∀ {e : Schema} {xs ys : List JVal}, ExtL e xs ys → xs.map (project e) = ys.map (project e)
+  | _, _, _, .nil _ => rfl
+  | _, _, _, .cons h t => by
+    simp only [List.map_cons, (ext_sameRead h).1, extL_project t]
+theorem extM_project : ∀ {s : Schema} {a b : List (Str × JVal)}, ExtM s a b →
+    ∀ ok, a.map (mapEntry ok s) = b.map (mapEntry ok s)
+  | _, _, _, .nil _, _ => rfl
+  | _, _, _, .cons (k := k) (v := v) (w := w) h t, ok => by
+    simp only [List.map_cons, extM_project t ok]
+    rw [mapEntry_congr (x := (k, v)) (y := (k, w)) rfl (ext_sameRead h).1]
+theorem extO_rel : ∀ {fields : List Field} {a b : List (Str × JVal)}, ExtO fields a b →
+    ∀ f ∈ fields, EntriesRel (SameRead f.schema)
+      (a.filter (fun e => spells f.name f.aliases e.1)) (b.filter (fun e => spells f.name f.aliases e.1))
+  | _, _, _, .nil _, _, _ => .nil
+  | _, _, _, .cons (k := k) hf t, f, hmem => by
+    rw [List.filter_cons, List.filter_cons]
+    by_cases hsp : spells f.name f.aliases k = true
+    · simp only [hsp, if_true]
+      exact .cons ⟨rfl, ext_sameRead (hf f hmem hsp)⟩ (extO_rel t f hmem)
+    · simp only [hsp]
+      exact extO_rel t f hmem
+end
+
+theorem ext_project {s : Schema} {v w : JVal} (h : Ext s v w) : project s v = project s w :=
+  (ext_sameRead h).1
+
+/-! ### Values that were present -/
+
+theorem scalar_verbatim {norm : JVal → Option JVal} (hv : Verbatim norm) {v nv : JVal}
+    (h : project (.scalar norm) v = some nv) : nv = v :=
+  hv v nv (project_scalar_some h).2.1
+
+theorem obj_preserves {fields : List Field} {keep : Bool} {o : Obj} {v' : JVal} (hd : Distinct fields)
+    (h : project (.obj fields keep) (.obj o) = some v') {f : Field} (hf : f ∈ fields)
+    (hg : f.ghost = false) {v nv : JVal} (hl : f.look o = .one v)
+    (hna : (f.nullAbsent && isNull v) = false) (hp : project f.schema v = some nv) :
+    ∃ o', v' = .obj o' ∧ (f.skip nv = false → (f.name, nv) ∈ o') ∧
+      (f.skip nv = true → ∀ e ∈ o', e.1 ≠ f.name) := by
+  rw [project_obj'] at h
+  cases hc : collect (outs fields o) with
+  | none => rw [hc] at h; cases h
+  | some out =>
+    rw [hc] at h
+    simp only [Option.some.injEq] at h
+    subst h
+    refine ⟨_, rfl, ?_, ?_⟩
+    · intro hs
+      apply List.mem_append_left
+      apply mem_collect hc
+      refine List.mem_map.mpr ⟨f, hf, ?_⟩
+      rw [hl, outOf_one hg, hna, hp]
+      simp [hs]
+    · intro hs e he hk
+      have hout : outOf f (f.look o) = .nothing := by
+        rw [hl, outOf_one hg, hna, hp]; simp [hs]
+      rcases List.mem_append.mp he with he | he
+      · have hself := filter_out_self hd hc hf
+        rw [hout] at hself
+        simp only at hself
+        have : e ∈ out.filter (fun e => f.spelledBy e.1) :=
+          List.mem_filter.mpr ⟨he, by rw [hk]; exact spelledBy_self f⟩
+        rw [hself] at this; cases this
+      · have h1 := (rest_unknown e he).1
+        rw [hk, known_of_mem hf (spelledBy_self f)] at h1
+        cases h1
+
+/-- Whether a struct accepts an object depends on the entries with known keys only. -/
+theorem obj_accepts_known_only {fields : List Field} {keep : Bool} {o o' : Obj}
+    (h : o.filter (fun e => known fields e.1) = o'.filter (fun e => known fields e.1)) :
+    (project (.obj fields keep) (.obj o)).isSome = (project (.obj fields keep) (.obj o')).isSome := by
+  rw [project_obj', project_obj']
+  have houts : outs fields o = outs fields o' := by
+    apply List.map_congr_left
+    intro f hf
+    have : f.look o = f.look o' := by
+      unfold Field.look look
+      rw [← filter_known_spelled hf o, ← filter_known_spelled hf o', h]
+    rw [this]
+  rw [houts]
+  cases collect (outs fields o') <;> rfl
+
+/-! ### The scalar types are well-formed -/
+
+theorem wf_str {norm : Str → Option Str} (h : ∀ a b, norm a = some b → norm b = some b) : WF (Schema.str norm) := by
+  refine .scalar ?_ ?_
+  · intro a b hab
+    cases a <;> simp only [reduceCtorEq] at hab
+    rename_i x
+    cases hx : norm x with
+    | none => rw [hx] at hab; cases hab
+    | some y =>
+      rw [hx] at hab
+      simp only [Option.some.injEq] at hab
+      subst hab
+      simp only [h x y hx]
+  · intro a ha
+    cases a <;> simp only [reduceCtorEq] at ha
+    rename_i x
+    cases hx : norm x <;> rw [hx] at ha <;> simp at ha
+
+theorem wf_int (lo hi : Int) : WF (Schema.int lo hi) := by
+  refine .scalar ?_ ?_
+  · intro a b hab
+    cases a <;> simp only [reduceCtorEq] at hab
+    rename_i i
+    by_cases hc : lo ≤ i ∧ i ≤ hi
+    · rw [if_pos hc] at hab
+      simp only [Option.some.injEq] at hab
+      subst hab
+      simp only [if_pos hc]
+    · rw [if_neg hc] at hab; cases hab
+  · intro a ha
+    cases a <;> simp only [reduceCtorEq] at ha
+    split at ha <;> simp at ha
+
+theorem wf_bool : WF Schema.bool := by
+  refine .scalar ?_ ?_
+  · intro a b hab
+    cases a <;> simp only [reduceCtorEq, Option.some.injEq] at hab
+    subst hab; rfl
+  · intro a ha
+    cases a <;> simp at ha
+
+theorem wf_float : WF Schema.float := by
+  refine .scalar ?_ ?_
+  · intro a b hab
+    cases a <;> simp only [reduceCtorEq, Option.some.injEq] at hab <;> subst hab <;> rfl
+  · intro a ha
+    cases a <;> simp at ha
+
+theorem wf_intLax (lo hi : Int) (parse : Str → Option Int) : WF (Schema.intLax lo hi parse) := by
+  refine .scalar ?_ ?_
+  · intro a b hab
+    cases a with
+    | int i =>
+      simp only at hab
+      by_cases hc : lo ≤ i ∧ i ≤ hi
+      · rw [if_pos hc] at hab
+        simp only [Option.some.injEq] at hab
+        subst hab
+        simp only [if_pos hc]
+      · rw [if_neg hc] at hab; cases hab
+    | str x =>
+      simp only at hab
+      cases hx : parse x with
+      | none => rw [hx] at hab; cases hab
+      | some i =>
+        rw [hx] at hab
+        simp only at hab
+        by_cases hc : lo ≤ i ∧ i ≤ hi
+        · rw [if_pos hc] at hab
+          simp only [Option.some.injEq] at hab
+          subst hab
+          simp only [if_pos hc]
+        · rw [if_neg hc] at hab; cases hab
+    | _ => simp at hab
+  · intro a ha
+    cases a with
+    | int i => simp only at ha; split at ha <;> simp at ha
+    | str x =>
+      simp only at ha
+      cases hx : parse x with
+      | none => rw [hx] at ha; cases ha
+      | some i => rw [hx] at ha; simp only at ha; split at ha <;> simp at ha
+    | _ => simp at ha
+
+theorem wf_voipVersion : WF Schema.voipVersion := by
+  refine .scalar ?_ ?_
+  · intro a b hab
+    cases a with
+    | int i =>
+      simp only at hab
+      by_cases hc : i = 0
+      · rw [if_pos hc] at hab
+        simp only [Option.some.injEq] at hab
+        subst hab
+        rfl
+      · rw [if_neg hc] at hab; cases hab
+    | str x => simp only [Option.some.injEq] at hab; subst hab; rfl
+    | _ => simp at hab
+  · intro a ha
+    cases a with
+    | int i => simp only at ha; split at ha <;> simp at ha
+    | str x => simp at ha
+    | _ => simp at ha
+
+/-- A field whose serialiser skips nothing and that writes nothing back when absent is in order. -/
+theorem field_ok_plain {f : Field} (hs : ∀ v, f.skip v = false) (hd : f.dflt = none) : f.Ok :=
+  ⟨fun _ v => hs v, fun d h => by rw [hd] at h; cases h⟩
+
 end Ruma.ContentSchema
